@@ -145,6 +145,7 @@ Pre(s, op, a) ==
                      /\ ~Undefined(a.key) /\ a.key.p # "sum" =>
                            WriteOK(IF a.key.c.k = "none" THEN [kind |-> "all", idx |-> <<>>] ELSE Classify(a.key.c), a.v, a.key.c)
     [] op = "overlap" -> \A j \in DOMAIN a.names : a.names[j] \in Names
+    [] op = "twin_get" -> TRUE        \* a lookup on an indexer of ANOTHER package with the same IDs: no effect here
     [] OTHER -> FALSE
 
 \* the resolution the implementation will actually use (through its caches)
@@ -168,7 +169,8 @@ PostData(s, op, a) ==
   ELSE s.data
 
 PostCaches(s, op, a) ==        \* <<cacheC', cacheM'>>
-  IF op = "overlap" THEN <<InsertC(s.cacheC, [k |-> "tuple", ns |-> a.names], OverlapEntry(a.names)), s.cacheM>>
+  IF op = "twin_get" THEN <<s.cacheC, s.cacheM>>
+  ELSE IF op = "overlap" THEN <<InsertC(s.cacheC, [k |-> "tuple", ns |-> a.names], OverlapEntry(a.names)), s.cacheM>>
   ELSE IF a.key.c.k = "none" \/ Undefined(a.key) THEN <<s.cacheC, s.cacheM>>
   ELSE LET r == UsedRes(s, a.key) IN
        << InsertC(s.cacheC, a.key.c, r),
